@@ -92,3 +92,15 @@ def stream_lex(chk, strings):
     chk.coverage.setdefault('lex_inputs', {}).update({
         'strings': len(strings), 'tokenised': sum(o.startswith('ok') for o in outs), 'lexing_errors': sum(o == 'err lex' for o in outs)})
     return chk.stream('plural-lex', lines, outs)
+
+
+HOSTILE = ['\u0663', '\uff13', '\u0969', '\u00b2', '\u2163', '\n', '\r', '\x0b', '\x0c', '\x1c', '\x85', '\xa0', '\u2003', '\u3000', '\ufeff',
+           'N', '\uff4e', '\u0578', '\uff0b', '\uff1d', '\uff01', '\u2212', '\x00', ';', '\\', '~', '^', '\u00d7', '\u00f7', '"', "'", '#', '.', ',', '_', '$', '@', '`', '{', '[']
+
+def hostile_strings():
+    """characters a loosened regex (\\d, \\s, re.IGNORECASE, a wider class) would let through, placed at every kind of position"""
+    out = []
+    for h in HOSTILE:
+        out += [h, h + h, 'n' + h, h + 'n', 'n == 1' + h, 'n' + h + '== 1', 'n ==' + h + '1', 'n == 1' + h + '0', 'n == ' + h,
+                '(' + h + 'n)', 'n ? 1' + h + ': 2', '!' + h + 'n', 'n ' + h + ' n', 'n %' + h + '10 == 1 ? 0 : 1']
+    return out
